@@ -117,6 +117,15 @@ def d_lazy_requires():
     >>> raise RuntimeError('needs a module that is not there')
     """
 
+def d_closes_stdout():
+    """
+    Code that treats sys.stdout like a file it owns (a command line helper writing to '-') and closes it
+
+    >>> import sys
+    >>> with sys.stdout as out:
+    ...     print('written to a stream that is then closed')
+    """
+
 def d_skip_on():
     """
     >>> print('ran')
@@ -234,6 +243,9 @@ def observe(ex, default_state):
     except BaseException as e:      # noqa
         res = ('raised', type(e).__name__, ())
     finally:
+        if sys.stdout is not so:
+            # the next doctest of the process would write to (and be captured from) whatever was left here
+            res = res + ('sys.stdout left bound to %s%s' % (type(sys.stdout).__name__, ' (closed)' if getattr(sys.stdout, 'closed', False) else ''),)
         sys.stdout = so
         warnings.filters[:] = before_filters
     return res
@@ -286,6 +298,8 @@ def history_search(ctx):
                     baseline[key] = obs
                 elif obs != baseline[key]:
                     problem = 'doctest %s behaves differently after %r: %r, alone/first: %r' % (name, hist[:pos], obs, baseline[key])
+                if len(obs) > 3:
+                    problem = 'after doctest %s (run after %r) %s: every later doctest of the process inherits it' % (name, hist[:pos], obs[3])
                 if dflt != dflt_pristine:
                     problem = 'the default options shared by the doctests of a run were changed by running %r: %r (were %r)' % (hist[:pos + 1], dflt, dflt_pristine)
                     dflt = copy.deepcopy(dflt_pristine)
